@@ -874,7 +874,7 @@ func runInterval() {
 	w := &emit.Writer{Dir: *flagOut, Prefix: "intv", ShardSize: 100,
 		Imports:  "From Reservoir Require Import Base.Prelude Model.Evict Check.Evict.",
 		CaseType: "icase", CheckFn: "check_interval"}
-	m.Rule = "real janitor goroutine and ticker: constructor interval, then cleanup_interval changed through config.UpdatePartialFromConfig between slow (>= 1 h) and fast (5-40 ms) values; after each change the cleanup_runs metric is watched for a window at least 50x longer (fast) or 1000x shorter (slow) than the interval; an expired entry stored before a fast phase must be gone after the observed run. distinct by phase list; every case is non-trivial"
+	m.Rule = "real janitor goroutine and ticker: constructor interval, then cleanup_interval changed through config.UpdatePartialFromConfig between slow (>= 1 h) and fast (5-40 ms) values; after each change the cleanup_runs metric is watched for a window at least 50x longer (fast) or 1000x shorter (slow) than the interval; an expired entry stored before a fast phase must be gone after the observed run; plus (direct) a change arriving part-way through a 2 s period (to 1.5 s after 1.2 s): between 1 and 4 cycles in the following 3.2 s. distinct by phase list; every case is non-trivial"
 	n := 3
 	if thorough() {
 		n = 12
@@ -994,6 +994,39 @@ func runInterval() {
 			m.Count("backend", be)
 			m.Count("phases", fmt.Sprint(len(phases)))
 			m.Record(cs, true, map[string]any{"backend": be, "phases": txt})
+		}
+	}
+	// a change that arrives PART-WAY through a period, and what the ticker does afterwards: interval 2 s, set to 1.5 s
+	// after 1.2 s; in the next 3.2 s two cycles are due (1.5 s and 3.0 s after the change); then the period is 1.5 s, not a remainder
+	for _, be := range []string{"Mem", "File"} {
+		cfg := config.NewDefault()
+		ctx, cancel := context.WithCancel(context.Background())
+		var c store
+		dir := ""
+		if be == "Mem" {
+			c = cache.NewMemoryCache[meta](cfg, 75, huge, 2*time.Second, 64, ctx)
+		} else {
+			caseSeq++
+			dir = filepath.Join("fc", fmt.Sprintf("m%d", caseSeq))
+			os.MkdirAll(dir, 0755)
+			c = cache.NewFileCache[meta](cfg, dir, huge, 2*time.Second, 64, ctx)
+		}
+		time.Sleep(1200 * time.Millisecond)
+		before := metrics.Global.Cache.CleanupRuns.Get()
+		st, err := config.UpdatePartialFromConfig(cfg, map[string]any{"cache": map[string]any{"cleanup_interval": "1.5s"}})
+		if err == nil && st != config.UpdateStatusFailed {
+			time.Sleep(3200 * time.Millisecond)
+			runs := metrics.Global.Cache.CleanupRuns.Get() - before
+			m.Count("mid_period_change_runs", fmt.Sprint(runs))
+			if runs < 1 || runs > 4 {
+				m.DirectFail(map[string]any{"kind": "interval-not-followed", "backend": be, "interval_before": "2s", "changed_after": "1.2s", "interval_after": "1.5s",
+					"observed_for": "3.2s", "cleanup_cycles": runs, "what": "after a change of the cleanup interval part-way through a period the janitor does not run at the new interval (one cycle was due in the window)"})
+			}
+		}
+		c.Destroy()
+		cancel()
+		if dir != "" {
+			os.RemoveAll(dir)
 		}
 	}
 	w.Flush()
